@@ -5,7 +5,7 @@
 //! writer's change is detected and the stale write becomes a hub conflict-copy
 //! instead of a silent lost update (docs/specifications/distributed-sync.md).
 
-use super::meta::discover_local_fingerprints;
+use super::meta::discover_local_fingerprints_strict as discover_local_fingerprints;
 use super::reconcile::Fingerprint;
 use super::wire::{read_frame, write_frame, Hash, Request, Response, VERSION};
 use std::collections::BTreeMap;
